@@ -670,7 +670,9 @@ Next ==
     /\ l < NRec
     /\ l' = l + 1
     /\ LET e == Rec[l + 1] IN
-       IF skip /\ e.ev # "reset" THEN UNCHANGED <<mem, meta, st, last, aux, skip, nfail>>
+       \* (after a call that did not return, the history is not judged any further - except for the observations of the
+       \*  FILES the script marks "always": digests and their comparison, taken by a fresh process)
+       IF skip /\ e.ev # "reset" /\ ~(e.ev \in {"digest", "note"} /\ Has(e, "always")) THEN UNCHANGED <<mem, meta, st, last, aux, skip, nfail>>
        ELSE IF e.ev = "aborted" THEN UNCHANGED <<mem, meta, st, last, aux, nfail>> /\ skip' = TRUE
        ELSE IF e.outcome \in {"panic", "hang"} /\ ~(e.ev \in {"map", "child_dump"})
        THEN \* the call did not return: C01.outcome (attributed by the check to its own property)
